@@ -107,6 +107,8 @@ def concat(parts):
     if len(out) == 1:
         return out[0]
     w = sum(p[1] for p in out)
+    if len(out) == 2 and out[0][0] == "popsum" and is_zero(out[1]):
+        return popsum(w, popsum_items(out[0]), out[0][2])
     return mk("concat", w, *out)
 
 
@@ -189,6 +191,10 @@ def _slice(t, lo, w):
         return not_(slice_(t[2], lo, w))
     if op == "select":
         return select(t[2], slice_(t[3], lo, w), slice_(t[4], lo, w))
+    if op == "popsum" and lo == 0 and popsum_max(t) < (1 << w):
+        return popsum(w, popsum_items(t), t[2])
+    if op == "popsum" and lo > 0 and popsum_max(t) < (1 << lo):
+        return const(w, 0)
     if lo == 0 and op in LOWBITS:
         return nary(op, w, [slice_(x, 0, w) for x in t[2:]])
     if lo == 0 and op == "sub":
@@ -275,8 +281,8 @@ def not_(t):
         a, b = t[3], t[4]
         if a[0] in ("const", "not", "rep") or b[0] in ("const", "not", "rep"):
             return select(t[2], not_(a), not_(b))
-    if w == 1 and op == "and":
-        pass
+    if w == 1 and op in ("and", "or"):
+        return nary("or" if op == "and" else "and", 1, [not_(x) for x in t[2:]])
     return mk("not", w, t)
 
 
@@ -383,6 +389,32 @@ def nary(op, w, xs):
             nx = not_(x)
             if id(nx) in seen and nx[0] != "not" or (x[0] == "not" and id(x[2]) in seen):
                 return const(w, 0 if op == "and" else mask(w))
+    if op == "xor":
+        nn = 0
+        stripped = []
+        for x in rest:
+            if x[0] == "not":
+                nn += 1
+                stripped.append(x[2])
+            else:
+                stripped.append(x)
+        if nn:
+            r = nary("xor", w, stripped)
+            return not_(r) if nn % 2 else r
+    if op == "add" and len(rest) >= 2 and any(x[0] in ("popsum", "rep") for x in rest):
+        lin = [_to_linear(x) for x in rest]
+        if all(l is not None for l in lin):
+            c0 = 0
+            items = []
+            for cc, it in lin:
+                c0 += cc
+                items.extend(it)
+            acc = {}
+            order = {}
+            for b, m in items:
+                acc[id(b)] = (acc.get(id(b), 0) + m) & mask(w)
+                order[id(b)] = b
+            return popsum(w, [(order[k], m) for k, m in acc.items()], c0 & mask(w))
     if op == "xor":
         cnt = {}
         order = []
@@ -514,6 +546,8 @@ def sub(a, b):
 
 
 def neg(a):
+    if a[0] == "rep":
+        return zext(a[2], a[1])
     if a[0] == "concat" and len(a) == 4 and a[2][1] == 1 and is_zero(a[3]):
         return rep(a[1], a[2])
     if a[0] == "const":
@@ -540,6 +574,10 @@ def lshr_c(x, c):
     w = x[1]
     if c == 0:
         return x
+    if x[0] == "popsum" and c < w:
+        its = popsum_items(x)
+        if x[2] % (1 << c) == 0 and all(m % (1 << c) == 0 for b, m in its):
+            return popsum(w, [(b, m >> c) for b, m in its], x[2] >> c)
     if c >= w:
         return const(w, 0)
     return concat([slice_(x, c, w - c), const(c, 0)])
@@ -746,6 +784,59 @@ def _lexmerge(rest):
     return None
 
 
+def _bool_expand(pred, a, b):
+    """eq/ne of bit-decomposable values as a boolean formula over the bits"""
+    if a[1] > 64:
+        pa = bit_parts(a)
+        if pa is None or len(pa) > 64:
+            return None
+    pa = bit_parts(a)
+    if pa is None:
+        return None
+    parts_ = a[2:] if a[0] == "concat" else (a,)
+    if not any(p[1] == 1 or p[0] == "rep" for p in parts_ if p[0] != "const"):
+        return None
+    if b[0] == "const":
+        # walk the bits of a against the constant
+        terms = []
+        pos = 0
+        parts = a[2:] if a[0] == "concat" else (a,)
+        for p in parts:
+            cbits = (b[2] >> pos) & mask(p[1])
+            if p[0] == "const":
+                if p[2] != cbits:
+                    return const(1, int(pred == "ne"))
+            elif p[1] == 1:
+                terms.append(p if cbits else not_(p))
+            elif p[0] == "rep":
+                if cbits == mask(p[1]):
+                    terms.append(p[2])
+                elif cbits == 0:
+                    terms.append(not_(p[2]))
+                else:
+                    return const(1, int(pred == "ne"))
+            elif p[0] == "arg":
+                for i in range(p[1]):
+                    bt = arg(p[2], p[3] + i, 1)
+                    terms.append(bt if (cbits >> i) & 1 else not_(bt))
+            else:
+                return None
+            pos += p[1]
+        r = nary("and", 1, terms) if len(terms) > 1 else (terms[0] if terms else const(1, 1))
+        return r if pred == "eq" else not_(r)
+    pb = bit_parts(b)
+    if pb is None or b[0] in ("arg", "mem"):
+        return None
+    # both structured: compare part-wise when the part boundaries agree
+    if a[0] == "concat" and b[0] == "concat" and _boundaries(a) == _boundaries(b):
+        terms = []
+        for p, q in zip(a[2:], b[2:]):
+            terms.append(icmp("eq", p, q))
+        r = nary("and", 1, terms)
+        return r if pred == "eq" else not_(r)
+    return None
+
+
 def icmp(pred, a, b):
     w = a[1]
     assert b[1] == w
@@ -794,6 +885,31 @@ def icmp(pred, a, b):
             if b[2] >> lo_w == 0:
                 return icmp(pred, concat(list(a[2:-1])), const(lo_w, b[2]))
             return const(1, int(pred == "ne"))
+    if w == 1 and pred in ("eq", "ne") and a[0] != "const" and b[0] != "const":
+        x = xor(a, b)
+        return not_(x) if pred == "eq" else x
+    if a[0] == "rep" and b[0] == "rep" and pred in ("eq", "ne"):
+        x = xor(a[2], b[2])
+        return not_(x) if pred == "eq" else x
+    if a[0] == "concat" and is_zero(a[-1]) and b[0] == "const":
+        lw = w - a[-1][1]
+        c = b[2]
+        if pred[0] == "s" and not (c >> (w - 1)):
+            pred = "u" + pred[1:]
+        if pred[0] == "u" or pred in ("eq", "ne"):
+            if c >> lw:
+                return const(1, int(pred in ("ne", "ult", "ule")))
+            return icmp(pred, slice_(a, 0, lw), const(lw, c))
+    if pred in ("eq", "ne") and is_zero(b) and a[0] == "xor" and len(a) == 4:
+        return icmp(pred, a[2], a[3])
+    if pred in ("eq", "ne") and a[0] != "arg" and a[0] != "mem":
+        r = _bool_expand(pred, a, b)
+        if r is not None:
+            return r
+    if a[0] == "concat" and b[0] == "concat" and is_zero(a[-1]) and is_zero(b[-1]):
+        k = min(a[-1][1], b[-1][1])
+        if pred in ("eq", "ne") or pred[0] == "u":
+            return icmp(pred, slice_(a, 0, w - k), slice_(b, 0, w - k))
     fa, fb = _signflip(a), _signflip(b)
     if fa is not None and fb is not None and pred not in ("eq", "ne"):
         return icmp(FLIPSIGN[pred], fa, fb)
@@ -881,6 +997,110 @@ def select(c, a, b):
             lo = k
         return concat(parts)
     return mk("select", w, c, a, b)
+
+
+# ---------------------------------------------------------------- population sums
+
+def bit_parts(t):
+    """decompose t into a list of (1-bit term, multiplicity) if every part is
+    a 1-bit term, a rep of one, or a constant; else None"""
+    parts = t[2:] if t[0] == "concat" else (t,)
+    out = []
+    for p in parts:
+        if p[0] == "const":
+            k = bin(p[2]).count("1")
+            if k:
+                out.append((const(1, 1), k))
+        elif p[1] == 1:
+            out.append((p, 1))
+        elif p[0] == "rep":
+            out.append((p[2], p[1]))
+        elif p[0] == "arg" and p[1] <= 64:
+            for i in range(p[1]):
+                out.append((arg(p[2], p[3] + i, 1), 1))
+        else:
+            return None
+    return out
+
+
+def popsum(w, items, c0=0):
+    """sum of mult * bit, as a w-bit number"""
+    acc = {}
+    order = {}
+    c = c0
+    for b, m in items:
+        if b[0] == "const":
+            c += m * b[2]
+            continue
+        acc[id(b)] = acc.get(id(b), 0) + m
+        order[id(b)] = b
+    its = sorted(((order[k], m) for k, m in acc.items() if m), key=lambda x: ser(x[0]))
+    if not its:
+        return const(w, c)
+    if len(its) == 1 and its[0][1] == 1 and c == 0:
+        return zext(its[0][0], w)
+    flat = []
+    for b, m in its:
+        flat.append(b)
+        flat.append(m)
+    return mk("popsum", w, c, *flat)
+
+
+def popsum_items(t):
+    return [(t[i], t[i + 1]) for i in range(3, len(t), 2)]
+
+
+def popsum_max(t):
+    return t[2] + sum(m for b, m in popsum_items(t))
+
+
+def _to_linear(t):
+    """t as const + sum(mult * bit) or None"""
+    w = t[1]
+    if t[0] == "const":
+        return t[2], []
+    if t[0] == "popsum":
+        return t[2], popsum_items(t)
+    if t[0] == "rep":
+        return 0, [(t[2], mask(w))]
+    if t[1] == 1:
+        return 0, [(t, 1)]
+    if t[0] == "concat":
+        c = 0
+        items = []
+        pos = 0
+        nb = 0
+        for p in t[2:]:
+            if p[0] == "const":
+                c |= p[2] << pos
+            elif p[1] == 1:
+                items.append((p, 1 << pos))
+                nb += 1
+            elif p[0] == "rep":
+                items.append((p[2], mask(p[1]) << pos))
+                nb += 1
+            elif p[0] == "popsum":
+                for b, m in popsum_items(p):
+                    items.append((b, m << pos))
+                c += p[2] << pos
+                if popsum_max(p) >= (1 << p[1]):
+                    return None
+            else:
+                return None
+            pos += p[1]
+        if nb > 8:
+            return None
+        return c, items
+    return None
+
+
+def ctpop(w, x):
+    bp = bit_parts(x)
+    if bp is not None:
+        return popsum(w, bp)
+    if x[0] == "const":
+        return const(w, bin(x[2]).count("1"))
+    return mk("call:llvm.ctpop", w, x)
 
 
 # ---------------------------------------------------------------- generic ops
@@ -1075,6 +1295,11 @@ def _ev(t, env, memo):
         return fencode(math.sqrt(x), w)
     if o == "call:llvm.fabs":
         return ev(t[2], env, memo) & (M >> 1)
+    if o == "popsum":
+        v = t[2]
+        for b, m in popsum_items(t):
+            v += m * ev(b, env, memo)
+        return v & M
     if o == "fcmp":
         return int(eval_fcmp(t[2], ev(t[3], env, memo), ev(t[4], env, memo), t[3][1]))
     if o in ("shl", "lshr", "ashr", "shlsat", "lshrsat", "ashrsat"):
